@@ -47,6 +47,7 @@ type Output struct {
 	Rule       string           `json:"rule"`
 	DetChecked int              `json:"determinism_rechecks"`
 	Harness    string           `json:"harness_error,omitempty"`
+	Nondet     []string         `json:"nondeterministic,omitempty"` // worlds whose re-execution from the recorded decisions gave another event log
 	RunDigest  string           `json:"run_digest"` // hash over (world index, event digest, verdict) of every world, in order
 }
 
@@ -274,9 +275,16 @@ func cmdRun(args []string) {
 			r2 := h.RunWorld(sc, &w2, true, false)
 			o.DetChecked++
 			if r2.Digest != ro.Digest || (r2.V == nil) != (ro.V == nil) {
-				o.Harness = fmt.Sprintf("nondeterministic world seed=%d idx=%d: digest %s vs %s", *seed, idx, ro.Digest, r2.Digest)
-				o.Samples = append(o.Samples, w)
-				break
+				// not a verdict by itself (the driver exits 2 unless a violation is confirmed in a fresh process): keep going,
+				// a tree whose results depend on state the simulator does not own may still show reproducible violations
+				if len(o.Nondet) < 3 {
+					o.Nondet = append(o.Nondet, fmt.Sprintf("nondeterministic world seed=%d idx=%d: digest %s vs %s", *seed, idx, ro.Digest, r2.Digest))
+					o.Samples = append(o.Samples, w)
+				}
+				if *recheckAll {
+					o.Harness = o.Nondet[0]
+					break
+				}
 			}
 		}
 		if ro.V != nil {
